@@ -73,6 +73,14 @@ func (cb *CertificateBuilder) WithKeyTypes(signingType, cryptoType int) (*Certif
 	if cryptoType < 0 {
 		return cb, oops.Errorf("crypto type cannot be negative: %d", cryptoType)
 	}
+	// The types are serialised as 2-byte fields: reject what does not fit
+	// instead of truncating it (BuildKeyTypePayload does the same).
+	if signingType > 65535 {
+		return cb, oops.Errorf("signing type exceeds uint16 range: %d", signingType)
+	}
+	if cryptoType > 65535 {
+		return cb, oops.Errorf("crypto type exceeds uint16 range: %d", cryptoType)
+	}
 	cb.certType = CERT_KEY
 	cb.signingType = &signingType
 	cb.cryptoType = &cryptoType
